@@ -29,6 +29,18 @@ CLAIMED = {
              "decided (half-precision arithmetic is declined under C15). If an encoder or loader is rewritten as a loop "
              "or memcpy+bswap the extractor reports analysis-broken rather than pass.",
         design="§4 C10"),
+    "C16": dict(
+        technique="DFA extraction from the constant table + exhaustive product construction against an RFC 3629 reference automaton (language equivalence); path enumeration of the counting loop and of the attachment",
+        text="The step function's terms are extracted from _cbor_unicode_decode's IR and tabulated over (state, byte) using "
+             "the utf8d initialiser; the product with a reference DFA written from the RFC 3629 ABNF is explored "
+             "exhaustively: REJECT iff reference dead, ACCEPT iff scalar boundary - language equivalence over all byte "
+             "strings of all lengths (overlongs, surrogates, > U+10FFFF, truncation are edges of the product). Table "
+             "indices are proved in range; every path of the counting loop (0-3 iterations) and of "
+             "cbor_string_set_handle is checked for 'count = number of ACCEPT results, 0 and non-OK on error, data and "
+             "length stored unchanged'.",
+        note="Decided essentially as a whole. Loop paths are enumerated up to 3 iterations and generalised by the loop's "
+             "uniform shape (counted loop; C01 rule 5 checks the shape).",
+        design="§4 C16"),
     "C13": dict(
         technique="whole-library who-may-call + effect summaries (allocator call graph), block-provenance rule against the extracted constructor table",
         text="Decided as a whole by static who-may-call/effect analysis over all 20 units: external-symbol inventory "
